@@ -41,6 +41,9 @@ GRIDS = {
 }
 BPMS = [60.0, 100.0, 120.0, 177.5, 240.0]
 BPMS_FAR = [7.5, 1920.0]                                                   # more than 10x away from the others
+# dimension 23 (near-ties): DISTINCT tempo values that agree to two decimals (re-timed sections) next to one clean value; every value is
+# its own group of the definition, however close the others are
+BPMS_NEAR = [175.001, 175.004, 175.0049, 174.996, 200.0]
 MULTS = [0.5, 0.75, 1.0, 1.25, 2.0]
 MULTS_WIDE = [0.0, -1.0, 10.0, 0.015625, 1000.0]                           # the whole range of a float multiplier: zero, negative, tiny, huge
 OVERRIDES = [None, 100, 177.5]
@@ -381,9 +384,14 @@ def _random_case(rng, game, plain=False):
     values = list(BPMS)
     if not plain and rng.random() < 0.12:
         values += BPMS_FAR
+    near = (not plain) and (not int_typed) and rng.random() < 0.1
+    if near:
+        values = list(BPMS_NEAR)
     if int_typed and rng.random() < 0.7:
         values = [int(b) for b in values if float(b).is_integer()]        # an all-int bpm column
     pool = rng.sample(values, rng.randrange(1, min(k, 3) + 1))           # repeated bpm values
+    if near and k >= 2:
+        pool = rng.sample(values, min(k, 4))                             # as many distinct near values as tempo points
     bpms = [[t, rng.choice(pool)] for t in times]
     t1 = times[0]
     later = [t for t in grid if t >= t1]
@@ -517,6 +525,10 @@ def _features(case):
         f.add("first_object_on_first_tempo_point")
     if any(b in BPMS_FAR for _, b in case["bpms"]):
         f.add("far_bpm")
+    if len({b for _, b in case["bpms"]}) > len({round(float(b), 2) for _, b in case["bpms"]}):
+        f.add("distinct_bpm_values_agreeing_to_two_decimals")
+    if any(round(float(b), 2) != float(b) for b in _dominant_set(case)):
+        f.add("dominant_bpm_has_more_than_two_decimals")
     if case.get("grid", "base") != "base":
         f.add("grid_" + case["grid"])
     for k in ("np_scalars", "override_np"):
@@ -539,7 +551,7 @@ def _features(case):
 def tempo_analysis_vs_definitions(rep):
     rng = rep.rng
     N = rep.n(1000, 30000)
-    rep.bound = (f"up to {N} seeded charts: 1..4 tempo points at distinct times of the first 6 grid times with bpm values drawn from 1..3 of {BPMS} (repeats, ties; 12%: also {BPMS_FAR}), "
+    rep.bound = (f"up to {N} seeded charts: 1..4 tempo points at distinct times of the first 6 grid times with bpm values drawn from 1..3 of {BPMS} (repeats, ties; 12%: also {BPMS_FAR}; 10% of the wider float-typed cases: from {BPMS_NEAR} instead, distinct values that agree to two decimals), "
                  f"1..3 notes (hits and holds, lengths {HOLD_LENGTHS + [0.0]}) at or after the first tempo point, override in {OVERRIDES} (60%) or {OVERRIDES_MORE}, 20% as numpy scalar, passed positionally / by keyword / omitted; "
                  f"osu and quaver (2/3 of the cases): 0..4 SVs with multipliers {MULTS} (15% of the wider cases also {MULTS_WIDE}; 16% of the overrides of the wider cases from {OVERRIDES_WIDE}), 30% on a tempo point, 15% on another SV, 10% before the first tempo point; "
                  "sm (30% with a stop), bms, o2j, base Map: dominant_bpm and scroll_speed without SVs. "
